@@ -2,6 +2,8 @@ package props
 
 import (
 	"fmt"
+	"os"
+	"os/exec"
 	"sort"
 	"strings"
 	"sync/atomic"
@@ -152,7 +154,7 @@ func resolveSystem(sys semver.System) (resolve.System, bool) {
 func C01(tier string) {
 	run := core.NewRun("C01", tier, c01Replay)
 	quick := tier == "quick"
-	run.Cov["rule"] = "per system: full product domain of DESIGN §6.1-6.4 filtered by Parse; all pairs by real Compare (matrix computed twice: cached parses row-major, fresh parses via System.Compare in reverse column-major); all triples decided by the ranking certificate over the matrix; a pair is non-trivial when the two strings differ"
+	run.Cov["rule"] = "per system: full product domain of DESIGN §6.1-6.4 filtered by Parse; all pairs by real Compare (matrix computed twice: cached parses row-major, fresh parses via System.Compare in reverse column-major); all triples decided by the ranking certificate over the matrix; a pair is non-trivial when the two strings differ; cross-system histories: for every ordered pair of systems (A, B) a fresh child process compares a 95-string list (prerelease identifiers around the int32/int64 limits) in A and then in B, and B's matrix must equal the one a fresh process computes"
 	var states, transitions, nontrivial int64
 	perSys := map[string]any{}
 	for _, sys := range dom.Systems {
@@ -238,6 +240,9 @@ func C01(tier string) {
 			core.Harness("C01 %v: only %d equivalence classes — vacuous domain", sys, classes)
 		}
 	}
+	hs, hc := c01History(run)
+	transitions += hc
+	run.Cov["cross_system_histories"] = map[string]any{"two_step_histories_in_fresh_processes": hs, "compares": hc, "strings_per_system": len(c01HistoryStrings(semver.NPM))}
 	run.Cov["states"] = states
 	run.Cov["transitions"] = transitions
 	run.Cov["traces_validated_against_impl"] = transitions
@@ -439,6 +444,13 @@ func c01Replay(w string) (bool, string) {
 		x := core.Sign(a.Compare(b))
 		y := core.Sign(sys.Compare(p[2], p[3]))
 		return x == y, fmt.Sprintf("Version.Compare=%d System.Compare=%d", x, y)
+	case "xhist":
+		fresh, err1 := c01HistoryChild("-", p[1], p[3], p[4])
+		after, err2 := c01HistoryChild(p[2], p[1], p[3], p[4])
+		if err1 != nil || err2 != nil {
+			return true, "child process failed"
+		}
+		return fresh == after, fmt.Sprintf("pair matrix fresh %s, after %s: %s", fresh, p[2], after)
 	case "build":
 		c := sys.Compare(p[2], p[3])
 		return c == 0, fmt.Sprintf("Compare(%s,%s)=%d", p[2], p[3], c)
@@ -467,4 +479,125 @@ func c01Replay(w string) (bool, string) {
 		return held, fmt.Sprintf("reference class sequence %v", ref)
 	}
 	return true, "unknown witness kind"
+}
+
+// ---------------------------------------------------------------------------------------------
+// cross-system history clause: the order a system computes must not depend on which other system's versions
+// the process has parsed and compared before. Each history runs in a fresh child process.
+
+// c01HistoryStrings is the shared string list (systems that need a prefix add it): prerelease identifiers around
+// the int32 and int64 limits, where systems classify "number or word" differently, plus ordinary shapes.
+func c01HistoryStrings(sys semver.System) []string {
+	nums := []string{"0", "1", "10", "2147483647", "2147483648", "3000000001", "20000000001", "9223372036854775806", "9223372036854775807", "9223372036854775808", "99999999999999999999", "1a", "a", "alpha", "A"}
+	var out []string
+	for _, core := range []string{"1.0.0", "1.2.3"} {
+		out = append(out, core)
+		for _, n := range nums {
+			out = append(out, core+"-"+n, core+"-ci."+n, core+"-"+n+".1")
+		}
+	}
+	out = append(out, "1.0.0+b", "2.0.0", "0.0.1-0", "1.0.0-alpha.beta", "1.0.0-rc.1")
+	if sys == semver.Go {
+		for i := range out {
+			out[i] = "v" + out[i]
+		}
+	}
+	return out
+}
+
+var c01HistorySystems = []semver.System{semver.DefaultSystem, semver.NPM, semver.Cargo, semver.Go, semver.NuGet, semver.Composer, semver.PyPI, semver.RubyGems, semver.Maven}
+
+func c01HistoryMatrix(sys semver.System, only []string) string {
+	strs := c01HistoryStrings(sys)
+	if len(only) > 0 {
+		strs = only
+	}
+	var b strings.Builder
+	for _, x := range strs {
+		vx, ex := sys.Parse(x)
+		for _, y := range strs {
+			vy, ey := sys.Parse(y)
+			switch {
+			case ex != nil || ey != nil:
+				b.WriteByte('x')
+			default:
+				b.WriteByte("<=>"[core.Sign(vx.Compare(vy))+1])
+			}
+		}
+	}
+	return b.String()
+}
+
+// C01HistoryWorker: args = first system ("-" for none), second system, optional pair restricting both passes;
+// prints the second system's matrix.
+func C01HistoryWorker(args []string) {
+	var only []string
+	if len(args) >= 4 {
+		only = args[2:4]
+	}
+	if args[0] != "-" {
+		a, _ := dom.SysByName(args[0])
+		first := only
+		if len(only) > 0 && (a == semver.Go) != strings.HasPrefix(only[0], "v") {
+			// the same identifiers in the first system's spelling
+			first = nil
+			for _, s := range only {
+				s = strings.TrimPrefix(s, "v")
+				if a == semver.Go {
+					s = "v" + s
+				}
+				first = append(first, s)
+			}
+		}
+		c01HistoryMatrix(a, first)
+	}
+	b, _ := dom.SysByName(args[1])
+	fmt.Println(c01HistoryMatrix(b, only))
+}
+
+func c01HistoryChild(a, b string, pair ...string) (string, error) {
+	out, err := exec.Command(os.Args[0], append([]string{"C01", "--history", a, b}, pair...)...).Output()
+	return strings.TrimSpace(string(out)), err
+}
+
+// c01History runs every ordered pair of systems as a two-step history.
+func c01History(run *core.Run) (histories, compares int64) {
+	type job struct{ a, b semver.System }
+	base := map[semver.System]string{}
+	var jobs []job
+	for _, b := range c01HistorySystems {
+		m, err := c01HistoryChild("-", b.String())
+		if err != nil || m == "" {
+			core.Harness("C01 history baseline %v: %v", b, err)
+		}
+		base[b] = m
+		for _, a := range c01HistorySystems {
+			if a != b {
+				jobs = append(jobs, job{a, b})
+			}
+		}
+	}
+	var hs, cs int64
+	core.ParFor(len(jobs), func(i int) {
+		j := jobs[i]
+		m, err := c01HistoryChild(j.a.String(), j.b.String())
+		if err != nil {
+			core.Harness("C01 history %v then %v: %v", j.a, j.b, err)
+		}
+		atomic.AddInt64(&hs, 1)
+		atomic.AddInt64(&cs, int64(len(m)))
+		if m == base[j.b] {
+			return
+		}
+		strs := c01HistoryStrings(j.b)
+		n := len(strs)
+		for k := 0; k < len(m) && k < len(base[j.b]); k++ {
+			if m[k] != base[j.b][k] {
+				x, y := strs[k/n], strs[k%n]
+				run.Fail(core.Join("xhist", j.b.String(), j.a.String(), x, y), fmt.Sprintf("%v.Compare(%s, %s) is %c in a fresh process and %c after the same identifiers were compared in %v", j.b, x, y, base[j.b][k], m[k], j.a))
+				break
+			}
+		}
+	})
+	return hs, cs
 }
